@@ -279,7 +279,7 @@ def run_side(binary, cases, timeout=None, shards=NPROC):
             if st == 'timeout' and not FAST_ABORT:
                 # a slow (loaded) machine is not a hang: the case the shard stopped at is run once more ALONE with the
                 # full time limit; only if it does not finish then either is it reported as hanging
-                o1, st1 = _run_side(binary, [cases[todo[n]]], min(timeout, 120))
+                o1, st1 = _run_side(binary, [cases[todo[n]]], 2 * timeout)      # generous: the heaviest single cases take ~30 s on an idle machine
                 if st1 == 0 and len(o1) == 1:
                     results[todo[n]] = o1[0]
                     todo = todo[n + 1:]
